@@ -29,15 +29,28 @@ static void *verif_raw(size_t n) {
     __CPROVER_assume(n <= 256);
     return malloc(256);
 }
+static void *verif_raw_zero(size_t n) {   /* zero-filled, concrete size (no memset of symbolic length) */
+    if(n <= 8) return calloc(1, 8);
+    if(n <= 16) return calloc(1, 16);
+    if(n <= 32) return calloc(1, 32);
+    if(n <= 64) return calloc(1, 64);
+    if(n <= 128) return calloc(1, 128);
+    __CPROVER_assume(n <= 256);
+    return calloc(1, 256);
+}
 #else
 #define verif_raw(n) malloc(n)
 #endif
 void *verif_malloc(size_t n) { if(verif_should_fail(n)) return 0; return verif_raw(n); }
 void *verif_calloc(size_t a, size_t b) {
     if(verif_should_fail(a * b)) return 0;
+#ifdef VERIF_ALLOC_ROUND
+    return verif_raw_zero(a * b);
+#else
     void *p = verif_raw(a * b);
     if(p) memset(p, 0, a * b);
     return p;
+#endif
 }
 void *verif_realloc(void *p, size_t n) {
     if(verif_should_fail(n)) return 0;
